@@ -80,7 +80,9 @@ class Parameter(ir.Value):
                 "initialized with a name before realization."
             )
         root = builder.root
-        self_name = self.name = root._qualify_initializer_name(self_name)  # pylint: disable=protected-access
+        # Qualify with the scope of the builder the module is called in: a sub-builder starts
+        # from its parent's scope and adds the modules entered inside the subgraph body.
+        self_name = self.name = builder._qualify_initializer_name(self_name)  # pylint: disable=protected-access
         root.graph.initializers[self_name] = self
         self._realized = True
         return self
